@@ -14,7 +14,8 @@ package translator
 
 // a prepared passthrough request carries the client's bytes unchanged; ptPath remembers the native path it names
 //@ ghost var ptPath string
-//@ interface PassthroughCapable.PreparePassthrough
+//@ interface PassthroughCapable.PreparePassthrough(bodyBytes, r, profileLookup)
+//@   requires r != nil
 //@   modifies gvar ptPath
 //@   records ptPath = ite(res1 == nil, res0.TargetPath, old(ptPath))
 //@   ensures res1 == nil ==> res0 != nil && sameSlice(res0.Body, bodyBytes)
